@@ -62,9 +62,16 @@ Proof.
   destruct (st_matched s) eqn:Em; cbn [negb].
   2:{ (* guarded out: nothing changes *)
       intros Hdom Kn Kf Kd Ku Rel'. rewrite app_nil_r in *. exists B, U. split; [exact Hcs|]. intro fns.
-      constructor; cbn [r_live r_used r_user p_cs]; auto.
+      constructor; cbn [r_live r_used r_user p_cs].
       - apply Rel'. now rewrite Hcs.
+      - exact Hu.
+      - reflexivity.
+      - exact Hp.
+      - exact HBn.
       - intro H. apply HU0. apply orb_false_iff in H. tauto.
+      - exact Ht.
+      - exact Hbi.
+      - exact Hnb.
       - intros e He. destruct (Hhid e He) as (c & Hl & Hh). exists c. now rewrite <- Hcs. }
   intros Hdom Kn Kf Kd Ku Rel'. cbn in Hdom. rewrite !andb_true_iff, negb_true_iff, !orb_false_iff in Hdom.
   destruct Hdom as (_ & (_ & _) & Hmem). apply mem_false in Hmem.
@@ -96,7 +103,7 @@ Proof.
     + intros e He Heb. apply in_app_iff in He. destruct He as [He|[<-|[]]].
       * destruct (Hnb e He Heb) as (_ & pre & c0 & post & E & _). destruct pre; discriminate.
       * cbn in Heb. congruence.
-    + rewrite app_nil_r. apply Hhid'. exact Hcs.
+    + rewrite app_nil_r. apply Hhid'. symmetry. exact Hcs.
   - (* a user registration *)
     exists B, (U ++ [c]). split; [rewrite Hcs, app_assoc; reflexivity|]. intro fns.
     constructor; cbn [r_live r_used r_user p_cs].
@@ -115,7 +122,7 @@ Proof.
       * cbn. split; [intro H; apply Hmem, HBNu, H|].
         exists U, c, []. split; [reflexivity|]. split; [reflexivity|]. split; [|split; reflexivity].
         intro H. apply Hfresh. rewrite Hcs, map_app. apply in_app_iff. right. exact H.
-    + rewrite app_assoc. apply Hhid'. exact Hcs.
+    + rewrite app_assoc. apply Hhid'. symmetry. exact Hcs.
 Qed.
 
 (* ---- Replace *)
@@ -165,10 +172,11 @@ Proof.
   - intros e He Heb. apply in_map_iff in He. destruct He as (e0 & <- & He0).
     assert (Heb0 : e_builtin e0 = false) by (destruct (named n e0); exact Heb).
     destruct (Hnb e0 He0 Heb0) as (HnoBN & pre & c0 & post & E & Hrest).
-    assert (Same : forall A (g : entry -> A), (g = e_name \/ g = e_before \/ g = e_after) ->
-              g (if named n e0 then mk_entry (e_name e0) (e_before e0) (e_after e0) i (e_reg e0) (e_builtin e0) else e0) = g e0).
-    { intros A g [->|[->| ->]]; destruct (named n e0); reflexivity. }
-    rewrite !(Same _ e_name), !(Same _ e_before), !(Same _ e_after) by auto.
+    match goal with |- context [if named n e0 then ?x else e0] => set (e' := if named n e0 then x else e0) in * end.
+    assert (Sn : e_name e' = e_name e0) by (unfold e'; destruct (named n e0); reflexivity).
+    assert (Sb : e_before e' = e_before e0) by (unfold e'; destruct (named n e0); reflexivity).
+    assert (Sa : e_after e' = e_after e0) by (unfold e'; destruct (named n e0); reflexivity).
+    rewrite Sn, Sb, Sa.
     split; [exact HnoBN|]. exists pre, c0, (post ++ [c]). split; [rewrite E, <- app_assoc; reflexivity|exact Hrest].
   - intros e He. apply in_map_iff in He. destruct He as (e0 & <- & He0).
     rewrite app_assoc, <- Hcs, last_named_snoc. cbn [cb_name c].
